@@ -43,16 +43,65 @@ pub struct RunOut {
 }
 
 pub fn run_cli(args: &[String]) -> Result<RunOut, String> {
-    let out = Command::new(cli_bin())
+    use std::io::Read;
+    use std::process::Stdio;
+    let mut child = Command::new(cli_bin())
         .args(args)
         .env_remove("RUST_LOG")
         .env("RUST_BACKTRACE", "0")
-        .output()
+        .stdin(Stdio::null())
+        .stdout(Stdio::piped())
+        .stderr(Stdio::piped())
+        .spawn()
         .map_err(|e| format!("cannot run {}: {e}", cli_bin().display()))?;
+    let mut so = child.stdout.take().unwrap();
+    let mut se = child.stderr.take().unwrap();
+    let out = std::sync::Arc::new(std::sync::Mutex::new((Vec::<u8>::new(), std::time::Instant::now())));
+    let out2 = out.clone();
+    let t_out = std::thread::spawn(move || {
+        let mut buf = [0u8; 4096];
+        loop {
+            match so.read(&mut buf) {
+                Ok(0) | Err(_) => break,
+                Ok(n) => {
+                    let mut g = out2.lock().unwrap();
+                    g.0.extend_from_slice(&buf[..n]);
+                    g.1 = std::time::Instant::now();
+                }
+            }
+        }
+    });
+    let t_err = std::thread::spawn(move || {
+        let mut v = Vec::new();
+        let _ = se.read_to_end(&mut v);
+        v
+    });
+    // the process is given as long as it keeps producing output; it is killed when it has been
+    // silent for 60 s (the inputs are tiny: the work itself takes milliseconds)
+    let started = std::time::Instant::now();
+    let mut killed = false;
+    let status = loop {
+        match child.try_wait() {
+            Ok(Some(st)) => break Some(st),
+            Ok(None) => {}
+            Err(e) => return Err(format!("wait: {e}")),
+        }
+        let silent = out.lock().unwrap().1.elapsed();
+        if silent > std::time::Duration::from_secs(60) && started.elapsed() > std::time::Duration::from_secs(60) {
+            let _ = child.kill();
+            let _ = child.wait();
+            killed = true;
+            break None;
+        }
+        std::thread::sleep(std::time::Duration::from_millis(if started.elapsed().as_millis() < 50 { 1 } else { 5 }));
+    };
+    let _ = t_out.join();
+    let stderr = t_err.join().unwrap_or_default();
+    let stdout = out.lock().unwrap().0.clone();
     Ok(RunOut {
-        code: out.status.code(),
-        stdout: String::from_utf8_lossy(&out.stdout).into_owned(),
-        stderr: String::from_utf8_lossy(&out.stderr).into_owned(),
+        code: if killed { Some(-999) } else { status.and_then(|s| s.code()) },
+        stdout: String::from_utf8_lossy(&stdout).into_owned(),
+        stderr: String::from_utf8_lossy(&stderr).into_owned(),
     })
 }
 
@@ -252,6 +301,7 @@ fn c15_check(c: &CliCase, st: &mut Stats) -> CheckResult {
     let path = write_input(&text)?;
     let mut outcome = Outcome::Ok;
     let mut result: Result<(), String> = Ok(());
+    let mut hung_modes: Vec<&str> = Vec::new();
     'modes: for mode in MODES {
         let mut args: Vec<String> = vec![path.display().to_string(), "--lib".into(), mode.into()];
         args.extend(sort_args(c.sort));
@@ -298,7 +348,13 @@ fn c15_check(c: &CliCase, st: &mut Stats) -> CheckResult {
                 }
             }
         }
-        if run.code != Some(0) {
+        // killed after 60 s of silence: the normal output checks below decide. If the output is complete
+        // and correct, the work was done and only the exit is missing: a violation; otherwise inconclusive.
+        let hung = run.code == Some(-999);
+        if hung {
+            hung_modes.push(mode);
+        }
+        if run.code != Some(0) && !hung {
             result = Err(format!(
                 "{cmdline}: exit status {:?} on well-formed input; stderr: {}",
                 run.code,
@@ -441,6 +497,15 @@ fn c15_check(c: &CliCase, st: &mut Stats) -> CheckResult {
         }
     }
     let _ = std::fs::remove_file(&path);
+    if !hung_modes.is_empty() {
+        return match result {
+            Ok(()) => Err(format!(
+                "adf-bdd --lib {} {:?}: the process printed its complete and correct output and then never terminated (killed after 60 s without further output)",
+                hung_modes[0], flags.iter().map(|f| f.arg()).collect::<Vec<_>>()
+            )),
+            Err(e) => Err(format!("INCONCLUSIVE: a CLI process was killed after 60 s of silence and its output so far is not the complete answer ({e})")),
+        };
+    }
     result?;
     st.count("process_runs", 3);
     for f in &flags {
